@@ -19,6 +19,7 @@ pub mod history;
 pub mod array_chain;
 pub mod junk_blocks;
 pub mod cross_array;
+pub mod user_hash;
 pub mod merge;
 pub mod stage_api;
 pub mod pack;
@@ -29,6 +30,7 @@ pub mod tree;
 pub fn run(name: &str, thorough: bool, seed: u64) -> Option<Report> {
     match name {
         "merge_arrays" => Some(merge::run(thorough, seed)),
+        "user_hash" => Some(user_hash::run(thorough, seed)),
         "cross_array" => Some(cross_array::run(thorough, seed)),
         "stage_api" => Some(stage_api::run(thorough, seed)),
         "junk_blocks" => Some(junk_blocks::run(thorough, seed)),
@@ -56,6 +58,7 @@ pub fn run(name: &str, thorough: bool, seed: u64) -> Option<Report> {
 pub fn replay(name: &str, case: &Value) -> Value {
     match name {
         "merge_arrays" => merge::replay(case),
+        "user_hash" => user_hash::replay(case),
         "cross_array" => cross_array::replay(case),
         "stage_api" => stage_api::replay(case),
         "junk_blocks" => junk_blocks::replay(case),
